@@ -84,6 +84,7 @@ def _make(name):
         oc["interpolation_xgrid"] = cell["obscard"]["interpolation_xgrid"]
     import yadism
 
+    yrun.log_cards(t, oc)
     out = yadism.run_yadism(t, oc)
     if spec.get("post") == "none":
         out["FL_total"] = None
